@@ -26,7 +26,7 @@ import (
 	"verif/harness/internal/prng"
 )
 
-const slots = 260 // case index = state*slots + corruption index
+const slots = 300 // case index = state*slots + corruption index
 
 // quickStates is the hand-picked state list of the quick tier; further states are random.
 var quickStates = []stateSpec{
@@ -420,6 +420,7 @@ var corpus = []struct {
 	{1, "inv-bitflip-sig"},                            // header known ahead, corrupted block witness (d99d969)
 	{1, "witness-empty"},                              //
 	{1, "tx-witness-bitflip-first"},                   // tx pooled, block copy with corrupted witness (ec0103c)
+	{0, "var:signers3-net=exact-half-first+resigned"}, // 3 signers, fee short by half the first witness' cost (seeded C06-m8: 2875800 vs 3367560)
 	{1, "copy:hdr-ver-replaced"},                      // header known ahead, copy with another verification script (seeded C06-m7)
 	{1, "copy:tx-ver-replaced"},                       // tx pooled, copy with another verification script (seeded C06-m7)
 	{0, "inblock-conflict-after-higher-fee+resigned"}, // [t1,t2], t2.Conflicts={t1} (d0c3ec8)
